@@ -73,11 +73,16 @@ def run(ck):
                                                          "resolve": RES_IN_ROOT | RES_NO_MAGIC | (RES_NO_SYM if nosym else 0)}})
             case["rawopen"] = jid
             case["oflags"] = fl
+            if not any(op_[0] == "hardlink" for op_ in tree) and rng.random() < 0.4:
+                # tie T2'': the procfs part of the static kernel -- what as_unsafe_path does on a handle for this path
+                jid += 1
+                jobs.append({"id": jid, "tree": tree, "op": {"k": "proc_fd_path", "path": H(p)}, "only_with_openat2": True})
+                case["fdpath"] = jid
             meta[base] = case
     res = {}
     for deny in ((), ("openat2",)):
         tag = ",".join(deny) or "none"
-        _, results, errs = run_driver_parallel(jobs, deny=deny, tag="c01" + tag)
+        _, results, errs = run_driver_parallel([j for j in jobs if not (deny and j.get("only_with_openat2"))], deny=deny, tag="c01" + tag)
         res[tag] = results
     # Answers that the kernel gives only because the machine is busy are asked for again, alone: under concurrent renames
     # (other shards, other processes) the kernel's walk answers EAGAIN and -- starting over after a failed RCU walk with its link
@@ -187,6 +192,18 @@ def run(ck):
         term = (f"let s := build {mk} in enc_wres (kwalk s {pb} {nf} {ns}) ++ enc_wres (ewalk s {pb} {nf} {ns}) "
                 f"++ [if wf_b s then 1%Z else 0%Z] ++ enc_wres (kwalk s {pb} {nfo} {ns}) ++ enc_wres (ewalk s {pb} {nfo} {ns})")
         cases.append((len(cases), term, o_raw, o_e, idmap, desc, emu_differs, open_pending))
+        fp = rk.get(case.get("fdpath", -1))
+        if fp and "bytes" in fp.get("res", {}) and fp.get("handle") and fp.get("root_fd") is not None:
+            rev_id = {v: k_ for k_, v in idmap.items()}
+            ob = fp.get("objs", {})
+            hp = next((h for h in [H("root")] + [op_[1] for op_ in case["tree"]]
+                       if ob.get(h) and (ob[h][0], ob[h][1]) == (fp["handle"]["dev"], fp["handle"]["ino"])), None)
+            if hp in rev_id:
+                ptr = fp.get("handle_trace", []) + fp.get("trace", [])
+                t3 = (f"let s := build {mk} in let '(bad, n) := agree_trace s {cb(fp['rootpath'])} "
+                      f"[({fp['root_fd']}%Z, ROOT); ({fp['handle']['fd']}%Z, {rev_id[hp]}%nat)] {trace_to_coq(ptr)} 0 0 in [Z.of_N bad; Z.of_N n]")
+                kcases.append((len(kcases), t3, dict(desc, procfs_read_of=unhex(hp).decode("latin1"), answer=unhex(fp["res"]["bytes"]).decode("latin1")), ptr))
+                stats["procfs_traces"] = stats.get("procfs_traces", 0) + 1
         tr = libe.get("trace")
         if tr:
             dup = next((e for e in tr if e["c"] == "fcntl" and e.get("cmd") == 1030), None)
@@ -261,7 +278,7 @@ def run(ck):
         "kernel_vs_reference_model": stats["kernel_vs_model"], "library_vs_kernel": stats["lib_vs_kernel"] * 2,
         "emulated_vs_model": stats["emu_vs_model"], "open_subpath_compared": stats["open"], "readlink_compared": stats["readlink"],
         "jobs_with_eloop_or_eagain_asked_again_alone": stats["asked_again_alone"], "known_link_budget_cases": stats["known_FH"], "model_trees_satisfying_wf": stats.get("wf_trees", 0), "kernel_outcome_histogram": stats["outcomes"],
-        "static_kernel_traces_validated": stats.get("static_traces", 0), "static_kernel_calls_compared": stats.get("static_calls", 0),
+        "static_kernel_traces_validated": stats.get("static_traces", 0), "of_which_procfs_reads": stats.get("procfs_traces", 0), "static_kernel_calls_compared": stats.get("static_calls", 0),
         "traces_validated_against_impl": stats["kernel_vs_model"] + stats["emu_vs_model"] + stats.get("static_traces", 0),
         "disagreements_checked": 0,
     }
